@@ -1,6 +1,8 @@
 package gen
 
 import (
+	"fmt"
+
 	"go.pennock.tech/tabular"
 	"go.pennock.tech/tabular/properties"
 	"go.pennock.tech/tabular/properties/align"
@@ -183,4 +185,23 @@ func PropHistGen(maxOps int) *rapid.Generator[[]PropOp] {
 		}
 		return out
 	})
+}
+
+// AppCallback is an application's own cell callback: it looks at the cell and, in its failing form, reports an
+// error for the cells whose text has an odd length.  It sets nothing.
+type AppCallback struct{ Fails bool }
+
+func (a AppCallback) UpdateProperties(po tabular.PropertyOwner) error {
+	if cell, ok := po.(*tabular.Cell); ok && a.Fails && len(cell.String())%2 == 1 {
+		return fmt.Errorf("application callback: does not like %q", cell.String())
+	}
+	return nil
+}
+
+// RegisterApp registers the application's render-time cell callback on the table (kind 1: it reports errors, 2: it
+// never fails, 0: none).
+func RegisterApp(t tabular.Table, kind int) {
+	if kind > 0 {
+		t.RegisterPropertyCallback(t, tabular.CB_AT_RENDER, tabular.CB_ON_CELL, AppCallback{Fails: kind == 1})
+	}
 }
